@@ -12,6 +12,7 @@ def _jobs(tier):
     for k in range(1, 15):
         jobs.append(dict(sub="vec", count=geo(k, 3000, 7, 30) * mult, fix=dict(k=k)))
         jobs.append(dict(sub="module", count=geo(k, 2500, 7, 30) * mult, fix=dict(k=k)))
+        jobs.append(dict(sub="module", count=geo(k, 600, 6, 8) * mult, fix=dict(k=k), flavour="asan"))
     jobs.append(dict(sub="tables", count=4000 * mult, fix=dict(logm=(0, 7)), split=2))
     jobs.append(dict(sub="tables", count=400 * mult, fix=dict(logm=(8, 12))))
     return jobs
